@@ -24,8 +24,16 @@ static void finish_mainloop(void)
     _exit(EX_OK);
 }
 
+#ifdef LST_FUZZ
+#include <setjmp.h>
+static jmp_buf fuzz_jb; static int fuzz_phase; static const uint8_t* fuzz_d; static size_t fuzz_n;
+#endif
 static ssize_t lst_recv(int fd, void* buf, size_t n, int flags)
 {
+#ifdef LST_FUZZ
+    if (fuzz_phase++ == 0) { if (send(g_feed_fd, fuzz_d, fuzz_n, 0) < 0) abort(); return recv(fd, buf, n, flags); }
+    longjmp(fuzz_jb, 1);
+#endif
     budget_stop();
     if (!feed_next()) finish_mainloop();
     return recv(fd, buf, n, flags);
